@@ -104,11 +104,26 @@ def _build(rnd, big, with_seq, on_chunk):
                                                  parent_or_seq_chunk_parent=parent))
         else:
             ve = min(e, s + 3)
+            # the phase block (VCF PS) is content: none, 0 (a legal value), small and large numbers
             vcs.append(VariantIntervalCollection([VariantInterval(s, ve, "A" * (ve - s), "SNV",
+                                                                  phase_block=rnd.choice([None, 0, 0, 1, 70001]),
+                                                                  variant_id=rnd.choice([None, "", "rs%d" % k]),
                                                                   variant_name="v%d" % k,
                                                                   parent_or_seq_chunk_parent=parent)],
                                                  variant_collection_name="vc%d" % k,
                                                  parent_or_seq_chunk_parent=parent))
+    if with_seq and not big and genes and rnd.random() < 0.65:
+        # a haplotype laid over the first bases of a gene (so that gene, isoforms and variant meet in one small region)
+        g0 = rnd.choice(genes)
+        vs = max(cs, g0.start - rnd.choice([0, 1]))
+        ve = min(ce, vs + rnd.choice([1, 2, 3]))
+        if ve > vs:
+            try:
+                vcs.append(VariantIntervalCollection([VariantInterval(vs, ve, "A" * (ve - vs), "SNV", variant_name="vh",
+                                                                      parent_or_seq_chunk_parent=parent)],
+                                                     variant_collection_name="vch", parent_or_seq_chunk_parent=parent))
+            except Exception:
+                pass
     if not (genes or fcs or vcs):
         return None
     coll = AnnotationCollection(feature_collections=fcs, genes=genes, variant_collections=vcs, sequence_name="chr",
@@ -165,6 +180,18 @@ def _events(args):
                     else:  # the query END is the anchor (a member end / a bin boundary), the start somewhere before
                         qe = anchor + rnd.choice([0, 0, 0, 1, -1])
                         qs = max(0, qe - rnd.choice([1, 5, 1000, 30000, 70000, BIN, BIN + 5, 2 * BIN]))
+                elif rnd.random() < 0.55 and allm:
+                    # small genome: ranges that start / end ON a member's or a child's own boundary (+-1), so that a
+                    # result chunk holds one isoform of a gene and not the other, cuts a variant, etc.
+                    m0 = rnd.choice(allm)
+                    anchor = rnd.choice([m0.start, m0.end] + [c.start for c in m0.iter_children()] +
+                                        [c.end for c in m0.iter_children()])
+                    if rnd.random() < 0.5:
+                        qs = max(0, anchor + rnd.choice([-3, -1, 0, 1]))
+                        qe = qs + rnd.choice([1, 2, 3, 6])
+                    else:
+                        qe = anchor + rnd.choice([0, 1, 2])
+                        qs = max(0, qe - rnd.choice([1, 2, 3, 6]))
                 else:
                     qs = rnd.randrange(-1, L)
                     qe = rnd.randrange(qs, L + 2)
